@@ -73,8 +73,8 @@ type lruAPI interface {
 }
 
 func runC29(c *ev.Ctx) {
-	c.Rule = "random sequences of 60 operations (add, get, peek, contains, remove, remove-oldest, get-oldest, resize, purge, contains-or-add, peek-or-add) over keys 0..5, weights 0..5 (also heavier than the bound), weight bound 0..8, size bound 0..5, on simplewlru.Cache and on the thread-safe wlru.Cache; " +
-		"after EVERY operation: return values equal the list model's, Len/Weight/Total equal the model and are within the bounds, Keys() equals the model order oldest->newest, and the eviction callback log equals the model's removals (same keys, same order; for purge as a multiset), each exactly once. " +
+	c.Rule = "random sequences of 60 operations (add, get, peek, contains, remove, remove-oldest, get-oldest, resize, purge, contains-or-add, peek-or-add) over keys 0..5, weights 0..5 (also heavier than the bound), weight bound 0..8, size bound 0..5, on simplewlru.Cache and on the thread-safe wlru.Cache, each built with and without an eviction callback; one value in seven is a stored nil; " +
+		"after EVERY operation: return values equal the list model's, Len/Weight/Total equal the model and are within the bounds, Keys() equals the model order oldest->newest, and (with a callback) the eviction callback log equals the model's removals (same keys, same order; for purge as a multiset), each exactly once. " +
 		"non-trivial = distinct operation sequences that contained an eviction caused by weight (not size), an overweight add and a recency refresh by get"
 	c.Assumptions = []string{"model: ordered list, newest at the back; add of an existing key refreshes recency and replaces value and weight; an entry heavier than the bound is added and evicted at once"}
 	n := c.Pick(40000, 2000000)
@@ -85,20 +85,43 @@ func c29Seq(c *ev.Ctx, r *rand.Rand, caseN int) {
 	m := &lruModel{maxW: uint(r.Intn(9)), maxN: r.Intn(6)}
 	var got []int
 	onEvict := func(k, v interface{}) { got = append(got, k.(int)) }
+	// values with v%7 == 3 are stored as nil: a cached nil is still a cached entry
+	val := func(v int) interface{} {
+		if v%7 == 3 {
+			return nil
+		}
+		return v
+	}
+	same := func(x interface{}, v int) bool {
+		if v%7 == 3 {
+			return x == nil
+		}
+		xi, ok := x.(int)
+		return ok && xi == v
+	}
 	var cache lruAPI
 	var safe *wlru.Cache
+	withCallback := caseN%4 < 2 // the other half is built without an eviction callback
+	var err error
 	if caseN%2 == 0 {
-		x, err := simplewlru.NewWithEvict(m.maxW, m.maxN, onEvict)
-		if err != nil {
-			panic(err)
+		var x *simplewlru.Cache
+		if withCallback {
+			x, err = simplewlru.NewWithEvict(m.maxW, m.maxN, onEvict)
+		} else {
+			x, err = simplewlru.New(m.maxW, m.maxN)
 		}
 		cache = x
 	} else {
-		x, err := wlru.NewWithEvict(m.maxW, m.maxN, onEvict)
-		if err != nil {
-			panic(err)
+		var x *wlru.Cache
+		if withCallback {
+			x, err = wlru.NewWithEvict(m.maxW, m.maxN, onEvict)
+		} else {
+			x, err = wlru.New(m.maxW, m.maxN)
 		}
 		cache, safe = x, x
+	}
+	if err != nil {
+		panic(err)
 	}
 	var log []string
 	weightEvict, overweight, refresh := false, false, false
@@ -121,7 +144,7 @@ func c29Seq(c *ev.Ctx, r *rand.Rand, caseN int) {
 				overweight = true
 			}
 			before := len(m.ents)
-			a, b := cache.Add(k, v, w), m.add(k, v, w)
+			a, b := cache.Add(k, val(v), w), m.add(k, v, w)
 			if b > 0 && before+1 <= m.maxN {
 				weightEvict = true
 			}
@@ -133,7 +156,7 @@ func c29Seq(c *ev.Ctx, r *rand.Rand, caseN int) {
 			log = append(log, fmt.Sprintf("get k%d", k))
 			gv, ok := cache.Get(k)
 			i := m.find(k)
-			if ok != (i >= 0) || (ok && gv.(int) != m.ents[i].v) {
+			if ok != (i >= 0) || (ok && !same(gv, m.ents[i].v)) {
 				fail("Get result")
 				return
 			}
@@ -148,7 +171,7 @@ func c29Seq(c *ev.Ctx, r *rand.Rand, caseN int) {
 			log = append(log, fmt.Sprintf("peek+contains k%d", k))
 			pv, ok := cache.Peek(k)
 			i := m.find(k)
-			if ok != (i >= 0) || cache.Contains(k) != ok || (ok && pv.(int) != m.ents[i].v) {
+			if ok != (i >= 0) || cache.Contains(k) != ok || (ok && !same(pv, m.ents[i].v)) {
 				fail("Peek/Contains result")
 				return
 			}
@@ -166,7 +189,7 @@ func c29Seq(c *ev.Ctx, r *rand.Rand, caseN int) {
 		case 6:
 			log = append(log, "removeOldest")
 			rk, rv, ok := cache.RemoveOldest()
-			if ok != (len(m.ents) > 0) || (ok && (rk.(int) != m.ents[0].k || rv.(int) != m.ents[0].v)) {
+			if ok != (len(m.ents) > 0) || (ok && (rk.(int) != m.ents[0].k || !same(rv, m.ents[0].v))) {
 				fail("RemoveOldest result")
 				return
 			}
@@ -192,6 +215,11 @@ func c29Seq(c *ev.Ctx, r *rand.Rand, caseN int) {
 			for _, e := range m.ents {
 				want = append(want, e.k)
 			}
+			if !withCallback {
+				m.ents = nil
+				got, m.evictions = nil, nil
+				break
+			}
 			if len(got) != len(m.evictions)+len(want) {
 				fail(fmt.Sprintf("purge reported %d evictions, model %d", len(got)-len(m.evictions), len(want)))
 				return
@@ -207,14 +235,14 @@ func c29Seq(c *ev.Ctx, r *rand.Rand, caseN int) {
 		case 9:
 			log = append(log, "getOldest")
 			gk, gv, ok := cache.GetOldest()
-			if ok != (len(m.ents) > 0) || (ok && (gk.(int) != m.ents[0].k || gv.(int) != m.ents[0].v)) {
+			if ok != (len(m.ents) > 0) || (ok && (gk.(int) != m.ents[0].k || !same(gv, m.ents[0].v))) {
 				fail("GetOldest result")
 				return
 			}
 		case 10:
 			log = append(log, fmt.Sprintf("containsOrAdd k%d v%d w%d", k, v, w))
 			i := m.find(k)
-			ok, evd := safe.ContainsOrAdd(k, v, w)
+			ok, evd := safe.ContainsOrAdd(k, val(v), w)
 			wantE := 0
 			if i < 0 {
 				wantE = m.add(k, v, w)
@@ -226,17 +254,17 @@ func c29Seq(c *ev.Ctx, r *rand.Rand, caseN int) {
 		case 11:
 			log = append(log, fmt.Sprintf("peekOrAdd k%d v%d w%d", k, v, w))
 			i := m.find(k)
-			prev, ok, evd := safe.PeekOrAdd(k, v, w)
+			prev, ok, evd := safe.PeekOrAdd(k, val(v), w)
 			wantE := 0
 			if i < 0 {
 				wantE = m.add(k, v, w)
 			}
-			if ok != (i >= 0) || evd != wantE || (ok && prev.(int) != m.ents[i].v) {
+			if ok != (i >= 0) || evd != wantE || (ok && !same(prev, m.ents[i].v)) {
 				fail(fmt.Sprintf("PeekOrAdd returned (%v,%v,%d), model present=%v evicted=%d", prev, ok, evd, i >= 0, wantE))
 				return
 			}
 		}
-		if fmt.Sprint(got) != fmt.Sprint(m.evictions) {
+		if withCallback && fmt.Sprint(got) != fmt.Sprint(m.evictions) {
 			fail(fmt.Sprintf("eviction callback log %v, model %v", got, m.evictions))
 			return
 		}
